@@ -159,6 +159,9 @@ func (o c16Op) String() string {
 	if o.Kind == 2 {
 		return "Parse(another document, reuse = original)"
 	}
+	if o.Kind == 3 {
+		return "Deserialize(blob of another document, destination = original)"
+	}
 	if o.Dst < 0 {
 		return fmt.Sprintf("Clone(%s, nil)", name(o.Obj))
 	}
@@ -185,12 +188,38 @@ func c16Run(seed seedDoc, cfg Cfg, hist []c16Op) (what, fp string) {
 		return fmt.Sprint("seed rejected ", err, p), "seed"
 	}
 	objs := []*c16Obj{{pj, docs}}
+	origInInput := false
 	for i, o := range hist {
 		if o.Obj >= len(objs) {
 			return "", "" // refers to a clone that does not exist in this history
 		}
 		src := objs[o.Obj]
-		if o.Kind == 2 {
+		if o.Kind == 3 {
+			// the original is recycled as the destination of a Deserialize
+			if o.Obj != 0 {
+				return "", ""
+			}
+			other := []byte(`{"dd":"strings that live in the message section","ee":["T","UU"],"n":[7]}`)
+			od, _ := ref.Parse(other)
+			opj, perr, pp := doParse(Cfg{hasAVX512, true}, other, nil, false)
+			if perr != nil || pp != "" {
+				return fmt.Sprint("cannot parse the other document: ", perr, pp), "seed"
+			}
+			blob, sp := serialize(simdjson.NewSerializer(), opj)
+			if sp != "" {
+				return "Serialize panicked: " + sp, "seed"
+			}
+			out, derr, dp := deserialize(simdjson.NewSerializer(), append([]byte(nil), blob...), src.pj)
+			if derr != nil || dp != "" {
+				return fmt.Sprint("op ", i, " Deserialize into the original failed: ", derr, dp), "deserialize-into"
+			}
+			objs[0] = &c16Obj{out, []*ref.Node{od}}
+			// Deserialize reuses the destination's Message, which for a parsed object IS the
+			// caller's input slice: from here on the original legitimately lives in that buffer
+			// (DESIGN.md 9, item 9: an observation, not part of this property)
+			origInInput = true
+			src = nil
+		} else if o.Kind == 2 {
 			// the original is recycled: another document is parsed with it as the reuse argument
 			if o.Obj != 0 {
 				return "", ""
@@ -286,7 +315,7 @@ func c16Run(seed seedDoc, cfg Cfg, hist []c16Op) (what, fp string) {
 		in[i] = '#'
 	}
 	for k, ob := range objs {
-		if k == 0 && !cfg.Copy {
+		if k == 0 && (!cfg.Copy || origInInput) {
 			continue
 		}
 		if w2, walker := compareWalkers(ob.pj, mkExpect(ob.docs), true); w2 != "" {
@@ -346,10 +375,10 @@ func c16Body(w *W) {
 			alpha = append(alpha, c16Op{Kind: 1, Obj: obj, Dst: dst})
 		}
 	}
-	alpha = append(alpha, c16Op{Kind: 2, Obj: 0})
+	alpha = append(alpha, c16Op{Kind: 2, Obj: 0}, c16Op{Kind: 3, Obj: 0})
 	depth := 3
 	seeds := []seedDoc{editSeeds[0], editSeeds[1], editSeeds[5]}
-	w.Note(fmt.Sprintf("Clone histories: every sequence of <= %d operations over %d ops {4 edits x 3 positions on the original or a clone, Clone of any object into nil or into any other existing object, re-parsing another document with the original as reuse argument} on %d seeds x copy/no-copy; after every step every object must equal its own model, and again after the input buffer is overwritten", depth, len(alpha), len(seeds)))
+	w.Note(fmt.Sprintf("Clone histories: every sequence of <= %d operations over %d ops {4 edits x 3 positions on the original or a clone, Clone of any object into nil or into any other existing object, re-parsing another document with the original as reuse argument, Deserialize of another document's blob into the original} on %d seeds x copy/no-copy; after every step every object must equal its own model, and again after the input buffer is overwritten", depth, len(alpha), len(seeds)))
 	for _, seed := range seeds {
 		for _, cfg := range strModes() {
 			var hist []c16Op
